@@ -8,11 +8,16 @@ as a control in which every hostile character is replaced by the harmless letter
 import random
 
 HOSTILE = "<>&\"'\\*_`[]"
+BACKSLASHED = ["C:\\a\\b\\c", "D:\\<x>  ", "\\\\\\", "\\\\", "\\a\\b\\c\\d\\e", "a\\\\b\\", "\\\\\\\\\\", "x\\y",
+               "\\'\\", "\\\"\\\\", "\\1\\2\\g<0>"]
 WORDS = ["<b>x</b>", "<i>", "</td>", "a<b", "x>y", "&amp;", "&lt;", "&", "a  b", "   ", "\\", "\\n", "it's", "*x*",
          "_y_", "`c`", "[[m]]", "say \"hi\"", "<script>", "1<2", "<!--", "<u>name"]
 
 
 def lit_body(rng):
+    if rng.random() < 0.25:          # 0..5 backslashes, adjacent or spread, next to quotes of both kinds
+        return rng.choice(BACKSLASHED) if rng.random() < 0.6 else \
+            "".join(rng.choice(["\\", "\\", "a", "'", '"', " ", "<"]) for _ in range(rng.choice([1, 3, 5, 8])))
     n = rng.choice([0, 1, 1, 2, 3])
     parts = []
     for _ in range(n):
@@ -45,6 +50,12 @@ def nocomma_rel(rng):
 def init_expr(rng):
     """(text, has_literal)"""
     r = rng.random()
+    if r < 0.2:                      # several literals separated by short gaps
+        k = rng.choice([2, 3, 4])
+        pieces = [lit(rng) for _ in range(k)]
+        if rng.random() < 0.5:
+            return "[" + rng.choice([", ", ","]).join(pieces) + "]", True
+        return "//".join(pieces), True
     if r < 0.55:
         k = rng.choice([1, 1, 2, 3])
         pieces = [lit(rng) for _ in range(k)]
@@ -71,7 +82,7 @@ def gen_var(rng, i, where):
             d["vartype"], d["strlen"] = "character", "*" if where == "module" else "20"
             d["parameter"] = where == "module"
             if text.startswith("["):
-                d["dim"] = "(2)"
+                d["dim"] = "(4)"
         elif rng.random() < 0.5 and where == "module":
             d["parameter"] = True
     elif form == "dim":
